@@ -28,7 +28,10 @@ Definition lit (z : Z) : string :=
 Definition dec_Z (z : Z) : string :=
   match z with Z0 => "0" | Zpos p => dec_N (Npos p) | Zneg p => "-" ++ dec_N (Npos p) end.
 
-Definition var (x : ident) : string := "v" ++ dec_nat x.
+(* a cell [mkey x j] (Syntax) is member j of the struct variable x *)
+Definition var (x : ident) : string :=
+  if Nat.leb 1000 x then "v" ++ dec_nat ((x - 1000) / 8) ++ ".m" ++ dec_nat ((x - 1000) mod 8)
+  else "v" ++ dec_nat x.
 Definition fn (f : ident) : string := "f" ++ dec_nat f.
 
 Definition binop_s (o : binop) : string :=
@@ -114,8 +117,39 @@ Fixpoint ps (fuel : nat) (s : stmt) {struct fuel} : string :=
     | SReturn (Some e) => "return " ++ pe e ++ " ;"
     | SBlock ss => blk ss
     | SPrint n args => (if n then "println" else "print") ++ "( " ++ sep_by " , " (map (fun a => lead a ++ pe a) args) ++ " ) ;"
+    | SStruct sn x _ => "S" ++ dec_nat sn ++ " " ++ var x ++ " ;"
+    | SCopy x y _ => var x ++ " = " ++ var y ++ " ;"
     end
   end.
+
+(* the struct types a program uses: every [SStruct sn x flds] names the type S<sn> with members flds; the type
+   definitions are printed once each (first occurrence) in front of the functions *)
+Fixpoint sdefs (fuel : nat) (s : stmt) {struct fuel} : list (nat * list fld) :=
+  match fuel with
+  | O => []
+  | S k =>
+    let many := fun ss => flat_map (sdefs k) ss in
+    match s with
+    | SStruct sn _ flds => [(sn, flds)]
+    | SIf _ a b => many a ++ many b
+    | SWhile _ b => many b
+    | SFor i _ u b => many i ++ many u ++ many b
+    | SBlock ss => many ss
+    | _ => []
+    end
+  end.
+Fixpoint dedup (seen : list nat) (l : list (nat * list fld)) : list (nat * list fld) :=
+  match l with
+  | [] => []
+  | (sn, f) :: r => if existsb (Nat.eqb sn) seen then dedup seen r else (sn, f) :: dedup (sn :: seen) r
+  end.
+Fixpoint pflds (j : nat) (flds : list fld) : string :=
+  match flds with
+  | [] => ""
+  | f :: r => ty_s (fty f) ++ dims_s (fdims f) ++ " m" ++ dec_nat j ++ " ; " ++ pflds (S j) r
+  end.
+Definition pstruct (d : nat * list fld) : string :=
+  "struct S" ++ dec_nat (fst d) ++ " { " ++ pflds 0 (snd d) ++ "} ;" ++ nl.
 
 Definition pparam (p : param) : string :=
   ty_s (pty p) ++ " " ++ var (pname p) ++ (match pdef p with Some d => " = " ++ pe d | None => "" end).
@@ -134,7 +168,11 @@ Definition pglobal (g : gdecl) : string :=
    | ds, vs => " = " ++ arr_lit ds (map lit vs)
    end) ++ " ;" ++ nl.
 
+Definition program_sdefs (p : program) : list (nat * list fld) :=
+  dedup [] (flat_map (fun f => flat_map (sdefs 40) (fbody f)) (pfuncs p) ++ flat_map (sdefs 40) (pmain p)).
+
 Definition print_program (p : program) : string :=
+  concat "" (map pstruct (program_sdefs p)) ++
   concat "" (map pglobal (pglobals p)) ++ concat "" (map pfunc (pfuncs p)) ++
   "void main() {" ++ nl ++ concat "" (map (fun s => "  " ++ ps 40 s ++ nl) (pmain p)) ++ "}" ++ nl.
 
